@@ -240,6 +240,13 @@ func runConnCase(c connCase) string {
 			}
 		case 'g':
 			r.pc.feed(unhx(op[1:]))
+		case 'G': // release the handler call that waits on "slowkey"; then everything delivered so far is processed
+			time.Sleep(30 * time.Millisecond) // let the other connections reach the command lock
+			gateRelease()
+			if !waitQuiet(r) {
+				r.log.add("!HANG")
+				atomic.StoreInt32(&hangFlag, 1)
+			}
 		case 'w':
 			r.pc.mu.Lock()
 			r.pc.wfail = true
